@@ -25,6 +25,9 @@ def term_of(fn, e, view_info):
     if e.k == "const" and e.a is None and e.b:
         return ("constparam", str(e.b))
     if e.k == "cast":
+        from .expr import cast_is_narrowing
+        if cast_is_narrowing(fn, e):
+            return ("expr", deep_repr(e))     # `x as u8` is x mod 256, not x
         return term_of(fn, e.a, view_info)
     if e.k == "call" and (e.a.path in LEN_CALLS or e.a.rpath in LEN_CALLS or e.a.name == "len" and len(e.a.args) == 1):
         ls = list(operand_locals(e.a.args[0]))
